@@ -62,10 +62,10 @@ PROPS = {
     "C08": dict(units=[U("FIFO"), U("LIFO"), U("SIRO"), U("Node.choose_next_customer"), U("Node.begin_service_if_possible_release")]),
     "C09": dict(units=[U("random_choice"), U("Node.change_customer_class"), U("Node.find_next_class_change"),
                        U("Node.decide_class_change"), U("Node.release"), U("Node.renege"), U("Node.finish_service"),
-                       U("ArrivalNode.have_event")] + ROUTERS),
+                       U("ArrivalNode.have_event"), U("Node.change_customer_class_while_waiting")] + ROUTERS),
     "C10": dict(units=[U("Distribution._sample"), U("ArrivalNode.find_next_event_date"), U("Node.decide_class_change"),
                        U("ArrivalNode.have_event"), U("ArrivalNode.batch_size"), U("ArrivalNode.inter_arrival")] + START + EXACT[:2]),
-    "C11": dict(units=[U("Node.begin_interrupted_individuals_service"), U("Node.decide_preempt"), U("Node.preempt"),
+    "C11": dict(units=[U("Node.begin_interrupted_individuals_service"), U("Node.decide_preempt"), U("Node.preempt"), U("Node.change_customer_class_while_waiting"),
                        U("Node.begin_service_if_possible_accept"), U("Node.begin_service_if_possible_release")]),
     "C12": dict(units=SCHEDULES + [U("Node.decide_preempt"), U("Node.decide_next_event"), U("Node.update_next_end_service_without_server"), U("Node.update_next_event_date"),
                        U("Node.begin_interrupted_individuals_service"), U("Node.begin_service_if_possible_release"),
@@ -73,9 +73,9 @@ PROPS = {
     "C13": dict(units=[U("NodeRouting.next_node_for_jockeying"), U("ProcessBased.next_node_for_jockeying"), U("NetworkRouting.next_node_for_jockeying"),
                        U("Node.decide_next_event"), U("Node.update_next_renege_time"), U("Node.update_next_event_date"),
                        U("Node.renege"), U("Node.begin_service_if_possible_accept"), U("Node.accept"), U("ArrivalNode.decide_baulk")]),
-    "C14": dict(units=KERNELS + NEXT_EVENT + START + TRANSFER + ARRIVAL + LOOPS + STATS + [U("StateTracker.timestamp"), U("Node.preempt"), U("Node.__init__")] + EXACT + SCHEDULES),
+    "C14": dict(units=KERNELS + NEXT_EVENT + START + TRANSFER + ARRIVAL + LOOPS + STATS + [U("StateTracker.timestamp"), U("Node.preempt"), U("Node.decide_preempt"), U("Node.change_customer_class_while_waiting"), U("Node.__init__")] + EXACT + SCHEDULES),
     "C16": dict(units=[U("Simulation.find_next_active_node")]),
     "C17": dict(units=[U("Node.block_individual"), U("Node.change_customer_class"), U("Node.accept"), U("Node.release"), U("Node.renege"),
-                       U("Node.finish_service"), U("Node.release_blocked_individual")] + TRACKERS + LOOPS[:3]),
+                       U("Node.finish_service"), U("Node.release_blocked_individual"), U("Node.change_customer_class_while_waiting")] + TRACKERS + LOOPS[:3]),
     "C18": dict(units=[U("Node.block_individual")]),
 }
